@@ -204,6 +204,28 @@ fn array_checks<T>(ctx: &mut Ctx, name: &str, good: Vec<T>, ty: sea_query::Array
         ("an element of another variant", { let mut v = elems.clone(); v.insert(1.min(v.len()), foreign.clone()); v }, false),
         ("another variant first", { let mut v = elems.clone(); v.insert(0, foreign.clone()); v }, false),
     ];
+    // the NULL array / the empty array of ANOTHER element type is a different type: extraction fails, also through Option
+    for oty in [sea_query::ArrayType::Bool, sea_query::ArrayType::TinyInt, sea_query::ArrayType::SmallInt, sea_query::ArrayType::Int, sea_query::ArrayType::BigInt, sea_query::ArrayType::Unsigned,
+        sea_query::ArrayType::Float, sea_query::ArrayType::Double, sea_query::ArrayType::String, sea_query::ArrayType::Char, sea_query::ArrayType::Bytes] {
+        if oty == ty { continue; }
+        for (what, src) in [("the NULL array of another element type", Value::Array(oty.clone(), None)), ("the empty array of another element type", Value::Array(oty.clone(), Some(Box::new(vec![]))))] {
+            ctx.eval_only(&format!("array {name} {what} {oty:?}"), true);
+            ctx.count("array.checks");
+            let g1 = catch(|| <Vec<T> as ValueType>::try_from(src.clone()).ok()).flatten();
+            let g2 = catch(|| <Option<Vec<T>> as ValueType>::try_from(src.clone()).ok()).flatten();
+            if g1.is_some() || g2.is_some() {
+                ctx.oracle_fail("extracting an array as a vector of a different element type did not fail", serde_json::json!({"type": format!("Vec<{name}>"), "case": what, "source": format!("{:?}", src), "as_vec": format!("{:?}", g1), "as_option": format!("{:?}", g2)}));
+            }
+        }
+    }
+    // the NULL array of the own element type: not a vector, and absent through Option
+    {
+        let src = Value::Array(ty.clone(), None);
+        ctx.eval_only(&format!("array {name} own NULL"), true);
+        let g1 = catch(|| <Vec<T> as ValueType>::try_from(src.clone()).ok()).flatten();
+        let g2 = catch(|| <Option<Vec<T>> as ValueType>::try_from(src.clone()).ok()).flatten();
+        if g1.is_some() || g2 != Some(None) { ctx.oracle_fail("the NULL array of the own element type is not extracted as absent (or is extracted as a vector)", serde_json::json!({"type": format!("Vec<{name}>"), "as_vec": format!("{:?}", g1), "as_option": format!("{:?}", g2)})); }
+    }
     for (what, vs, ok_expected) in variants {
         let n = vs.len();
         let src = Value::Array(ty.clone(), Some(Box::new(vs)));
@@ -315,6 +337,13 @@ pub fn run(ctx: &mut Ctx) {
         let src = match n { 1 => ValueTuple::One(vals[0].clone()), 2 => ValueTuple::Two(vals[0].clone(), vals[1].clone()), 3 => ValueTuple::Three(vals[0].clone(), vals[1].clone(), vals[2].clone()), _ => ValueTuple::Many(vals.clone()) };
         let back: Vec<Value> = src.clone().into_iter().collect();
         ctx.eval_only(&format!("tuple {n}"), true);
+        // a ValueTuple is itself an IntoValueTuple: passing it on keeps arity and order, whichever variant carries the values
+        for (how, vt) in [("as built", src.clone()), ("as Many", ValueTuple::Many(vals.clone()))] {
+            let again: Option<Vec<Value>> = catch(|| vt.clone().into_value_tuple().into_iter().collect());
+            if again.as_ref() != Some(&vals) { ctx.oracle_fail("ValueTuple::into_value_tuple changes arity or order", serde_json::json!({"arity": n, "built": how, "got": format!("{:?}", again)})); }
+            let twice: Option<Vec<Value>> = catch(|| vt.clone().into_value_tuple().into_value_tuple().into_iter().collect());
+            if twice.as_ref() != Some(&vals) { ctx.oracle_fail("ValueTuple::into_value_tuple changes arity or order", serde_json::json!({"arity": n, "built": format!("{how}, passed on twice"), "got": format!("{:?}", twice)})); }
+        }
         if back != vals { ctx.oracle_fail("ValueTuple::into_iter changes arity or order", serde_json::json!({"arity": n})); }
         macro_rules! ext { ($m:expr, $t:ty, $proj:expr) => { {
             let r = catch(|| { let t: $t = FromValueTuple::from_value_tuple(VT(src.clone())); $proj(t) });
